@@ -83,6 +83,7 @@ def lib():
         from sdc11073.pysoap.soapclient import HTTPReturnCodeError
         from sdc11073.pysoap.soapclientpool import SoapClientPool
         from sdc11073.xml_types import eventing_types as evt
+        from sdc11073.xml_types import msg_types
         from sdc11073.xml_types.addressing_types import HeaderInformationBlock
         from sdc11073.xml_types.dpws_types import DeviceEventingFilterDialectURI
         L = types.SimpleNamespace(**{k: v for k, v in locals().items() if k != 'L'})
@@ -395,7 +396,9 @@ class Env:
                 return line, 'fault', ('fault', named)
             return line, f'unexpected {r.action}', ('unexpected', named)
         if t == 'notify':
-            self.mgr.send_to_subscribers(etree.Element(f'{{{NS}}}Report'), op[1], None)
+            # real report object (MessageType branch) for the metric report, a bare element otherwise
+            payload = L.msg_types.EpisodicMetricReport() if op[1].endswith('/EpisodicMetricReport') else etree.Element(f'{{{NS}}}Report')
+            self.mgr.send_to_subscribers(payload, op[1], None)
             m = self.msgs()
             return line, self._sent(m), ('sent', m)
         if t == 'tick':
@@ -829,6 +832,98 @@ def _evaluate(ctx, cases, label):
                               'line': all_lines[start + j]}, model[j], outs[j])
 
 
+def _coverage(ctx):
+    """line/branch coverage of the anchored provider files while directed + some generated cases run (evidence only)"""
+    try:
+        import coverage
+    except ImportError:
+        return
+    L = lib()
+    files = [L.base.__file__, L.sync.__file__, L.asy.__file__]
+    cov = coverage.Coverage(include=files, branch=True, data_file=None)
+    rng = ctx.subrng('coverage')
+    cases = directed_cases() + [gen_case(rng) for _ in range(120)]
+    cov.start()
+    try:
+        for c in cases:
+            execute(c)
+    finally:
+        cov.stop()
+    import ast
+    res = {}
+    for f in files:
+        _, stmts, _, missing, _ = cov.analysis2(f)
+        # the modules were imported before the measurement started: count only statements inside function bodies
+        inside = {}
+        for fn in ast.walk(ast.parse(open(f).read())):
+            if isinstance(fn, (ast.FunctionDef, ast.AsyncFunctionDef)):
+                for b in fn.body:
+                    for n in ast.walk(b):
+                        if isinstance(n, ast.stmt):
+                            inside[n.lineno] = fn.name
+        body = [x for x in stmts if x in inside]
+        miss = [x for x in missing if x in inside]
+        by_fn = {}
+        for x in miss:
+            by_fn.setdefault(inside[x], []).append(x)
+        res[os.path.basename(f)] = dict(statements_in_functions=len(body), missed=len(miss),
+                                        missed_by_function={k: ' '.join(map(str, v)) for k, v in by_fn.items()})
+    ctx.notes['anchor_coverage'] = res
+
+
+def consumer_loopback(ctx):
+    """the real ConsumerSubscription (consumer/subscription.py) talks to each manager class through a loop-back soap client:
+    its view of the granted / remaining time must be the numbers of the reference monitor"""
+    from sdc11073.consumer.subscription import ConsumerSubscription
+    L = lib()
+    a0 = _actions()[0]
+    for mgr in MGRS:
+        env = Env(dict(mgr=mgr, maxdur=3000, maxerr=None))
+
+        class Loop:
+            def post_message_to(self, path, message, msg='', **_):  # noqa: ARG002
+                with contextlib.ExitStack() as st:
+                    for p in env._patched():
+                        st.enter_context(p)
+                    return env.request(path, message)
+        import contextlib
+        hosted = types.SimpleNamespace(EndpointReference=[types.SimpleNamespace(Address='http://127.0.0.1:9000/uuid/Svc')])
+        flt = L.evt.FilterType()
+        flt.text = a0
+        flt.Dialect = L.DeviceEventingFilterDialectURI.ACTION
+        cs = ConsumerSubscription(L.mf, L.SdcV1Definitions.data_model, lambda _addr: Loop(), hosted, flt,
+                                  notification_url=addr_str(0), end_to_url=addr_str(1), log_prefix='verif')
+        seen = []
+        try:
+            cs.subscribe(expires=25.37)
+            seen.append(('granted', round(cs.granted_expires * 100), 2537))
+            env.clock.ticks += 137
+            seen.append(('status', round(cs.get_status() * 100), 2400))
+            seen.append(('renew', round(cs.renew(10) * 100), 1000))
+            seen.append(('renew>max', round(cs.renew(99) * 100), 3000))
+            with contextlib.ExitStack() as st:
+                for p in env._patched():
+                    st.enter_context(p)
+                env.mgr.send_to_subscribers(L.etree.Element(f'{{{NS}}}Report'), a0, None)
+            seen.append(('notified', [(p['kind'], p['addr']) for p in env.posts], [('n', 0)]))
+            env.posts = []
+            cs.unsubscribe()
+            seen.append(('unsubscribed', cs.is_subscribed, False))
+            with contextlib.ExitStack() as st:
+                for p in env._patched():
+                    st.enter_context(p)
+                env.mgr.send_to_subscribers(L.etree.Element(f'{{{NS}}}Report'), a0, None)
+                env.mgr.stop_all(send_subscription_end=True)
+            seen.append(('after-unsubscribe', [(p['kind'], p['addr']) for p in env.posts], []))
+        finally:
+            env.close()
+        ctx.count('consumer-loopback:' + mgr)
+        for what, got, want in seen:
+            if got != want:
+                ctx.fail('consumer-view-inconsistent:' + what, f'{mgr}: ConsumerSubscription sees {got}, reference says {want}',
+                         {'mgr': mgr, 'scenario': 'consumer-loopback', 'step': what})
+
+
 def _corpus():
     res = []
     for f in sorted(glob.glob(os.path.join(core.VERIF, 'corpus', 'C08', '*.json'))):
@@ -847,12 +942,14 @@ def run(ctx):
         ctx.fail('delivered-not-in-filter:real-action-suffix', f'action {bad[0][0]} is a proper suffix of action {bad[0][1]}',
                  {'actions': bad[0]})
     _evaluate(ctx, _corpus(), 'corpus')
+    consumer_loopback(ctx)
     _evaluate(ctx, directed_cases(), 'directed')
     rng = ctx.subrng('cases')
     _evaluate(ctx, [gen_case(rng) for _ in range(ctx.n(700, 50000))], 'generated')
     # conforming subscribers only (filters = real actions): the suffix match must then be invisible
     rng = ctx.subrng('conforming')
     _evaluate(ctx, [gen_case(rng, arbitrary_filters=False) for _ in range(ctx.n(200, 12000))], 'generated-real-filters')
+    _coverage(ctx)
 
 
 def search(ctx):
@@ -870,6 +967,10 @@ def search(ctx):
 def replay(ctx, obj):  # noqa: ARG001
     import logging
     logging.disable(logging.CRITICAL)
+    if obj['case'].get('scenario') == 'consumer-loopback':
+        n = len(ctx.failures)
+        consumer_loopback(ctx)
+        return any(f['signature'] == obj.get('signature') for f in ctx.failures[n:])
     lines, outs, fails, _ = execute(obj['case'])
     print(f'  manager={obj["case"]["mgr"]} cfg: {lines[0]}')
     for op, o in zip(obj['case']['ops'], outs[1:]):
